@@ -5,8 +5,9 @@ usage: tools/eval_seed.py <seed dir with patch.diff + demo*.py> <property id> [-
 
 1. In a scratch worktree of /repo (outside /repo and /verif, removed afterwards): the patch applies, the
    pinned test suite still passes, the demonstration fails with the patch and passes without it.
-2. The patch is applied to /repo's working tree, the chosen checks run, and the tree is restored with
-   `git -C /repo checkout -- .` straight afterwards (also on error).
+2. The patch is applied to a scratch copy of /repo's working tree (outside /repo and /verif, removed afterwards) and the
+   chosen checks run against it (VERIF_REPO); with --in-repo it is applied to /repo itself instead and the tree is
+   restored with `git -C /repo checkout -- .` straight afterwards (also on error).
 Writes <seed dir>/meta.json.
 """
 import argparse
@@ -35,6 +36,7 @@ def main():
     ap.add_argument("--tier", default="quick")
     ap.add_argument("--seeds", default="20260927")
     ap.add_argument("--skip-confirm", action="store_true")
+    ap.add_argument("--in-repo", action="store_true", help="apply the patch to /repo itself (reverted afterwards) instead of a scratch copy")
     args = ap.parse_args()
     seed_dir = os.path.abspath(args.seed_dir)
     patch = os.path.join(seed_dir, "patch.diff")
@@ -76,16 +78,29 @@ def main():
             sh(["rm", "-rf", wt])
     # ---------------------------------------------------------------- 2. run the checks against it
     checks = (args.checks or args.prop).split(",")
-    rc, status = sh(["git", "-C", REPO, "status", "--porcelain"])
-    assert status.strip() == "", "refusing: /repo working tree is not clean:\n" + status
-    rc, out = sh(["git", "-C", REPO, "apply", "--whitespace=nowarn", patch])
-    assert rc == 0, out
+    scratch = None
+    if args.in_repo:
+        rc, status = sh(["git", "-C", REPO, "status", "--porcelain"])
+        assert status.strip() == "", "refusing: /repo working tree is not clean:\n" + status
+        rc, out = sh(["git", "-C", REPO, "apply", "--whitespace=nowarn", patch])
+        assert rc == 0, out
+        base_env = dict(os.environ)
+    else:
+        # default: a scratch copy of /repo's working tree (outside /repo and /verif, removed afterwards); the checks
+        # are pointed at it with VERIF_REPO, write no evidence and keep their replays in the scratch directory
+        import shutil  # pylint: disable=import-outside-toplevel
+        scratch = f"/tmp/evalrepo_{os.getpid()}"
+        shutil.rmtree(scratch, ignore_errors=True)
+        shutil.copytree(REPO, scratch, ignore=shutil.ignore_patterns(".git", "__pycache__", ".pytest_cache", "*.egg-info"))
+        rc, out = sh(["git", "apply", "--whitespace=nowarn", patch], cwd=scratch)
+        assert rc == 0, out
+        base_env = dict(os.environ, VERIF_REPO=scratch, VERIF_NO_EVIDENCE="1", VERIF_REPLAY_DIR=os.path.join(scratch, "replays"))
     detected = {}
     try:
         for chk in checks:
             for seed in args.seeds.split(","):
                 t0 = time.time()
-                env = dict(os.environ, VERIF_SEED=seed)
+                env = dict(base_env, VERIF_SEED=seed)
                 rc, out = sh([os.path.join(VERIF, "check"), chk, "--tier", args.tier], cwd=VERIF, env=env, timeout=3600)
                 lines = [l for l in out.splitlines() if l.startswith(("VIOLATION", "violation class", "HARNESS-ERROR", chk + " tier="))]
                 entry = {"check": chk, "seed": int(seed), "tier": args.tier, "rc": rc, "wall_s": round(time.time() - t0, 1), "lines": [l[:300] for l in lines][:6]}
@@ -95,9 +110,13 @@ def main():
                     detected[chk] = True
                     break
     finally:
-        sh(["git", "-C", REPO, "checkout", "--", "."])
-    rc, status = sh(["git", "-C", REPO, "status", "--porcelain"])
-    assert status.strip() == "", status
+        if args.in_repo:
+            sh(["git", "-C", REPO, "checkout", "--", "."])
+        else:
+            sh(["rm", "-rf", scratch])
+    if args.in_repo:
+        rc, status = sh(["git", "-C", REPO, "status", "--porcelain"])
+        assert status.strip() == "", status
     meta["detected_by"] = sorted(k for k, v in detected.items() if v)
     meta["missed_by"] = sorted(k for k, v in detected.items() if not v)
     old = {}
@@ -105,7 +124,7 @@ def main():
     if os.path.exists(mpath):
         with open(mpath, encoding="utf-8") as fh:
             old = json.load(fh)
-    for key in ("needs", "what", "origin"):
+    for key in ("needs", "what", "origin", "missed_at_first_then_strengthened"):
         if key in old and key not in meta:
             meta[key] = old[key]
     if args.skip_confirm:
